@@ -30,6 +30,7 @@ type FlowOpts struct {
 	Retain             int // permille
 	BigPayload         int // permille of payloads in the KiB range
 	BreakW             int // weight of the environment action "break connection"
+	PartW              int // weight of the environment action "partition" (the connection goes silent)
 	Budget             int
 	SelectMode         uint32
 	StarveP            int // scheduler: permille per step of holding one goroutine back for a stretch
@@ -329,6 +330,9 @@ func drawFlowOpts(t *Tape, thorough bool) FlowOpts {
 	}
 	if t.Flip("f-break", 600) {
 		o.BreakW = 1 + t.Draw("breakw", 3)
+	}
+	if t.Flip("f-part", 250) {
+		o.PartW = 1 + t.Draw("partw", 2)
 	}
 	if t.Flip("f-disk", 400) {
 		o.Disk.ErrBefore = 40
@@ -809,7 +813,7 @@ func (f *Flow) stalledInFaultPhase() {
 		return
 	}
 	for _, c := range f.recentConns() {
-		if c.Gen == w.Gen && (c.Hostile != nil || c.Stalled) {
+		if c.Gen == w.Gen && (c.Hostile != nil || c.Stalled || (c.Silent && c.Alive())) {
 			return
 		}
 	}
@@ -827,7 +831,7 @@ func (f *Flow) env() []Action {
 	var acts []Action
 	for _, c := range f.recentConns() {
 		c := c
-		if c.Alive() && w.Broker.Pending(c) {
+		if c.Alive() && !c.Silent && w.Broker.Pending(c) {
 			acts = append(acts, Action{Name: "broker-recv", Weight: 30, Run: func() { w.Broker.Consume(c) }})
 		}
 	}
@@ -840,6 +844,31 @@ func (f *Flow) env() []Action {
 			}
 			c.Break(kind)
 		}})
+	}
+	if c := s.Cur(); c != nil && c.Alive() && !c.Silent && c.ConnackStep != 0 && c.Hostile == nil && w.FaultOK() && f.O.PartW > 0 {
+		acts = append(acts, Action{Name: "partition", Weight: f.O.PartW, Run: func() {
+			w.Fault("partition")
+			c.Silent = true
+			c.SilentStep = w.Steps
+			c.SilentLimit = c.rdCur + w.Tape.Draw("partcut", c.avail()+1)
+			if c.CutInsidePacket() {
+				w.Probe("partition_inside_packet")
+			}
+			w.Ev("net", c.id, "conn%d goes silent: %d of %d queued bytes still arrive (inside a packet: %v)", c.id, c.SilentLimit-c.rdCur, len(c.B2C)-c.rdCur, c.CutInsidePacket())
+		}})
+	}
+	if c := s.Cur(); c != nil && c.Alive() && c.Silent {
+		// the partition ends with a reset. Once faults have stopped that
+		// is withheld from a client which has the means to notice the
+		// silence by itself: a packet cut in two and a PauseTimeout.
+		selfHelp := c.CutInsidePacket() && f.O.PauseTimeout != 0
+		if !(w.FaultsOff && selfHelp) {
+			acts = append(acts, Action{Name: "partition-heal", Weight: 1 + 4*b2i(w.FaultsOff), Run: func() {
+				w.Trouble()
+				w.Ev("net", c.id, "conn%d: the partition ends with a reset", c.id)
+				c.Break(2)
+			}})
+		}
 	}
 	acts = append(acts, f.quitActions()...)
 	acts = append(acts, f.closerActions()...)
@@ -933,6 +962,9 @@ func (f *Flow) AdoptedGen(gen int) bool { return f.adopted[gen] }
 func (f *Flow) goalReached() bool {
 	if f.InSent < f.O.Inbound {
 		return false
+	}
+	if c := f.S.Cur(); c != nil && c.Silent && c.Alive() {
+		return false // the silent connection is still the client's
 	}
 	for _, h := range f.Hostiles {
 		// what the client has read of a hostile stream it must also get
@@ -1330,4 +1362,11 @@ func (f *Flow) quitActions() []Action {
 		}
 	}
 	return acts
+}
+
+func b2i(b bool) int {
+	if b {
+		return 1
+	}
+	return 0
 }
